@@ -13,15 +13,19 @@ Definition isconst (d : data) : Prop := d_const d <> None.
 (* ------------------------------------------------------------------------- *)
 (* 0. Small facts                                                             *)
 (* ------------------------------------------------------------------------- *)
-Lemma class_query_not_const : forall s k k' c, class_query s k <> ObsConst k' c.
+(* (since the F12 fix GaussianKDE.log_probability_density = log of the -- possibly shadowed -- density, so the
+   class-level body of that one method can be the degenerate one) *)
+Lemma class_query_not_const : forall s k k' c,
+    (s_fam s <> FKDE \/ k <> QLogPdf) -> class_query s k <> ObsConst k' c.
 Proof.
-  intros s k k' c. unfold class_query.
+  intros s k k' c H. unfold class_query.
   destruct (s_fitted s); simpl; try discriminate.
   destruct (s_fam s); destruct k; simpl;
     try (destruct (s_params s); discriminate);
     try (destruct (s_model s); try discriminate; destruct (s_params s); try discriminate;
          match goal with |- context [has_key ?a ?b] => destruct (has_key a b) end; discriminate);
     try discriminate.
+  destruct H as [H|H]; congruence.
 Qed.
 
 Lemma family_eq_dec : forall a b : family, {a = b} + {a <> b}.
@@ -59,10 +63,11 @@ Section Proofs.
   Definition cfg (s : sinst) :=
     (s_fam s, s_rs s, s_min s, s_max s, s_ss s, s_bw s, s_w s, s_stored s).
 
-  (* a non-constant fit never touches _constant_value nor the override table *)
-  Lemma fit_nonconst_keeps_ov : forall s X g,
+  (* SINCE THE F5 FIX a non-constant fit clears _constant_value and the override table
+     (before: it never touched them - lemma fit_nonconst_keeps_ov - and [fit const; fit X] stayed degenerate) *)
+  Lemma fit_nonconst_resets_ov : forall s X g,
       d_const X = None ->
-      s_ov (st (fit s X g)) = s_ov s /\ s_const (st (fit s X g)) = s_const s.
+      s_ov (st (fit s X g)) = no_ov /\ s_const (st (fit s X g)) = None.
   Proof.
     intros s X g H. unfold fit_scipy, st. rewrite H.
     destruct s as [f fi p c ov rs mn mx ss bw w m sto]; simpl.
@@ -190,18 +195,17 @@ Section Proofs.
       rewrite H1. reflexivity.
   Qed.
 
-  (* fit reads the instance ONLY through its configuration and - for non-constant
-     data - through the (never reset) constant value / override table; on success
-     everything else observable is overwritten. *)
+  (* SINCE THE F5 FIX fit reads the instance ONLY through its configuration; on success everything
+     else observable is overwritten.  (Before, for non-constant data it also read the never-reset
+     constant value / override table.) *)
   Lemma fit_dep : forall s1 s2 X g,
       cfg s1 = cfg s2 ->
-      (d_const X = None -> s_ov s1 = s_ov s2 /\ s_const s1 = s_const s2) ->
       er (fit s1 X g) = None ->
       eqv (st (fit s1 X g)) (st (fit s2 X g)) /\
       snd (fst (fit s1 X g)) = snd (fst (fit s2 X g)) /\
       er (fit s2 X g) = None.
   Proof.
-    intros s1 s2 X g Hc Hov.
+    intros s1 s2 X g Hc.
     destruct s1 as [f fi p c ov rs mn mx ss bw w m sto].
     destruct s2 as [f2 fi2 p2 c2 ov2 rs2 mn2 mx2 ss2 bw2 w2 m2 sto2].
     unfold cfg in Hc; simpl in Hc.
@@ -210,16 +214,15 @@ Section Proofs.
     clear Hc.
     unfold er, st, eqv, fit_scipy.
     destruct (d_const X) eqn:HX.
-    - clear Hov. unfold constant_params, set_constant; simpl.
+    - unfold constant_params, set_constant; simpl.
       destruct f2; simpl; auto.
       destruct (truthy ss2); simpl.
       + destruct (jv_nat ss2); simpl; [auto | discriminate].
       + auto.
-    - destruct (Hov eq_refl) as [H1 H2]; simpl in H1, H2; subst. clear Hov.
-      cbv beta iota delta [s_fam s_ss s_bw s_w s_min s_max].
+    - cbv beta iota delta [s_fam s_ss s_bw s_w s_min s_max set_ov set_const].
       destruct f2; try (simpl; repeat split; auto; discriminate).
       + (* FTrunc *)
-        unfold set_min, set_max; simpl.
+        simpl.
         destruct (is_none mn2); simpl; destruct (is_none mx2); simpl;
           repeat match goal with
                  | |- context [match jv_q ?x with _ => _ end] => destruct (jv_q x); simpl
@@ -238,10 +241,10 @@ Section Proofs.
             simpl; [intros; repeat split; auto | discriminate].
   Qed.
 
-  (* configuration that later fits cannot disturb *)
+  (* configuration that later fits cannot disturb.  SINCE THE F6 FIX every TruncatedGaussian is stable
+     (before: only with both bounds given by the user); GaussianKDE still caches _sample_size (F7). *)
   Definition stable (s : sinst) : Prop :=
     match s_fam s with
-    | FTrunc => is_none (s_min s) = false /\ is_none (s_max s) = false   (* both bounds given by the user *)
     | FKDE => truthy (s_ss s) = true                                    (* sample_size given by the user *)
     | _ => True
     end.
@@ -252,12 +255,13 @@ Section Proofs.
     intros s X g H.
     destruct s as [f fi p c ov rs mn mx ss bw w m sto].
     unfold cfg, st, fit_scipy, stable in *.
-    cbv beta iota delta [s_fam s_ss s_bw s_w s_min s_max] in *.
+    cbv beta iota delta [s_fam s_ss s_bw s_w s_min s_max set_ov set_const] in *.
     destruct (d_const X) eqn:HX.
     - destruct (constant_params o_sfit _ X q); reflexivity.
     - destruct H as [H | H]; [congruence|].
       destruct f; try reflexivity.
-      + destruct H as [Ha Hb]. unfold set_min, set_max; simpl. rewrite Ha. simpl. rewrite Hb. simpl.
+      + simpl.
+        destruct (is_none mn); simpl; destruct (is_none mx); simpl;
         repeat match goal with
                | |- context [match jv_q ?x with _ => _ end] => destruct (jv_q x); simpl
                | |- context [o_tg_opt ?a ?b ?c] => destruct (o_tg_opt a b c); simpl
@@ -273,14 +277,12 @@ Section Proofs.
   Lemma stable_cfg : forall s1 s2, cfg s1 = cfg s2 -> stable s1 -> stable s2.
   Proof.
     intros s1 s2 H. unfold cfg in H. inversion H. unfold stable.
-    rewrite H1, H3, H4, H5. auto.
+    rewrite H1, H5. auto.
   Qed.
 
   Lemma run_fits_inv : forall hs s g,
       (stable s \/ Forall isconst hs) ->
-      cfg (fst (run_fits s hs g)) = cfg s /\
-      (Forall nonconst hs ->
-       s_ov (fst (run_fits s hs g)) = s_ov s /\ s_const (fst (run_fits s hs g)) = s_const s).
+      cfg (fst (run_fits s hs g)) = cfg s.
   Proof.
     induction hs as [|X r IH]; intros s g H; simpl.
     - auto.
@@ -292,21 +294,19 @@ Section Proofs.
       assert (H' : stable s' \/ Forall isconst r).
       { destruct H as [H|H]; [left; eapply stable_cfg; [symmetry; exact Hcfg | exact H]|].
         right. inversion H; assumption. }
-      destruct (IH s' g' H') as [I1 I2]. split.
-      + rewrite I1. exact Hcfg.
-      + intro Hn. inversion Hn as [|? ? HX Hr]; subst.
-        destruct (I2 Hr) as [J1 J2].
-        destruct (fit_nonconst_keeps_ov s X g HX) as [K1 K2].
-        rewrite J1, J2. rewrite <- K1, <- K2. rewrite E. split; reflexivity.
+      rewrite (IH s' g' H'). exact Hcfg.
   Qed.
 
-  (* side condition under which a history of fits is harmless *)
+  (* side condition under which a history of fits is harmless.  SINCE THE F5 / F6 FIXES the only trigger
+     left is GaussianKDE's cached _sample_size (F7): benign = the instance is not a GaussianKDE without a
+     user-given sample_size, or no earlier dataset was non-constant.  (Before the fixes benign also required
+     "X constant or no constant dataset earlier" and, for TruncatedGaussian, both bounds given.)
+     The third argument is kept for compatibility. *)
   Definition benign (s0 : sinst) (hs : list data) (X : data) : Prop :=
-    (d_const X <> None \/ Forall nonconst hs) /\ (stable s0 \/ Forall isconst hs).
+    stable s0 \/ Forall isconst hs.
 
-  (* T1 (partial, every ScipyModel family): under `benign`, a successful fit after any
-     history of fits is observationally the fit on the never-fitted instance (same
-     global-generator state in, same out). *)
+  (* T1 (every ScipyModel family): under `benign`, a successful fit after any history of fits is
+     observationally the fit on the never-fitted instance (same global-generator state in, same out). *)
   Theorem fit_pure_scipy_partial : forall s0 hs X g0 g,
       benign s0 hs X ->
       er (fit (fst (run_fits s0 hs g0)) X g) = None ->
@@ -314,10 +314,8 @@ Section Proofs.
       snd (fst (fit (fst (run_fits s0 hs g0)) X g)) = snd (fst (fit s0 X g)) /\
       er (fit s0 X g) = None.
   Proof.
-    intros s0 hs X g0 g [H1 H2] He.
-    destruct (run_fits_inv hs s0 g0 H2) as [I1 I2].
-    apply fit_dep; auto.
-    intro HX. destruct H1 as [H1|H1]; [congruence|]. apply I2; exact H1.
+    intros s0 hs X g0 g H He.
+    apply fit_dep; auto. apply run_fits_inv. exact H.
   Qed.
 
   Corollary fit_pure_scipy_partial_observe : forall s0 hs X g0 g,
@@ -326,7 +324,7 @@ Section Proofs.
       observe_s (st (fit (fst (run_fits s0 hs g0)) X g)) = observe_s (st (fit s0 X g)).
   Proof. intros. apply eqv_observe. apply fit_pure_scipy_partial; auto. Qed.
 
-  (* for the six plain families fit cannot fail, and `stable` is trivial *)
+  (* for the six plain families fit cannot fail *)
   Definition plain (f : family) : Prop :=
     match f with FTrunc | FKDE => False | _ => True end.
 
@@ -344,19 +342,37 @@ Section Proofs.
     rewrite IH. change s' with (st (s', g', e)). rewrite <- E. apply fit_keeps_fam.
   Qed.
 
+  (* T1 FULL for every family but GaussianKDE (successful final fit; the six plain families never fail) *)
+  Theorem fit_pure_scipy_full : forall s0 hs X g0 g,
+      s_fam s0 <> FKDE ->
+      er (fit (fst (run_fits s0 hs g0)) X g) = None ->
+      observe_s (st (fit (fst (run_fits s0 hs g0)) X g)) = observe_s (st (fit s0 X g)).
+  Proof.
+    intros s0 hs X g0 g Hf He. apply fit_pure_scipy_partial_observe; [|exact He].
+    left. unfold stable. destruct (s_fam s0); auto; congruence.
+  Qed.
+
+  Theorem fit_pure_plain : forall s0 hs X g0 g,
+      plain (s_fam s0) ->
+      observe_s (st (fit (fst (run_fits s0 hs g0)) X g)) = observe_s (st (fit s0 X g)).
+  Proof.
+    intros s0 hs X g0 g Hp.
+    apply fit_pure_scipy_full.
+    - intro E. rewrite E in Hp. exact Hp.
+    - apply fit_plain_ok. rewrite run_fits_fam. exact Hp.
+  Qed.
+
+  (* (kept under its old name and statement; the side condition on constant data is no longer needed) *)
   Theorem fit_pure_plain_partial : forall s0 hs X g0 g,
       plain (s_fam s0) ->
       (d_const X <> None \/ Forall nonconst hs) ->
       observe_s (st (fit (fst (run_fits s0 hs g0)) X g)) = observe_s (st (fit s0 X g)).
-  Proof.
-    intros s0 hs X g0 g Hp H.
-    apply fit_pure_scipy_partial_observe.
-    - split; auto. left. unfold stable. destruct (s_fam s0); simpl in *; auto; contradiction.
-    - apply fit_plain_ok. rewrite run_fits_fam. exact Hp.
-  Qed.
+  Proof. intros. apply fit_pure_plain; assumption. Qed.
 
   (* ----------------------------------------------------------------------- *)
-  (* T1 refuted (a): every ScipyModel subclass, history [fit const; fit X]    *)
+  (* T1, history [fit const; fit X]: REFUTED before the F5 fix for every      *)
+  (* ScipyModel subclass (theorem fit_pure_scipy_refuted: the cdf stayed the   *)
+  (* degenerate step at the old constant); now the overrides are gone.         *)
   (* ----------------------------------------------------------------------- *)
   Definition fresh (f : family) : sinst :=
     mkS f false None None no_ov None JNone JNone JNone JNone JNone None
@@ -373,31 +389,37 @@ Section Proofs.
       ov_cdf (s_ov s) = false -> sm_cdf (observe_s s) = class_query s QCdf.
   Proof. intros s H. unfold observe_s; simpl. rewrite q_s_spec. unfold overridden. rewrite H. reflexivity. Qed.
 
-  (* Whatever scipy returns: after [fit const; fit X] the cdf is still the degenerate
-     step function at the OLD constant, while a fresh instance fitted to X is not. *)
-  Theorem fit_pure_scipy_refuted : forall f,
-      exists s0 hs X, new_scipy f [] [] = Ok s0 /\
+  Theorem refit_after_constant_fixed : forall f,
+      exists s0 hs X, new_scipy f [] [] = Ok s0 /\ hs = [Stub.Xc] /\ X = Stub.X1 /\
         forall g0 g,
-          observe_s (st (fit (fst (run_fits s0 hs g0)) X g)) <> observe_s (st (fit s0 X g)) /\
-          sm_cdf (observe_s (st (fit (fst (run_fits s0 hs g0)) X g))) = ObsConst QCdf (Some (JNum 3)).
+          (* the degenerate state of the first fit is really there ... *)
+          sm_cdf (observe_s (fst (run_fits s0 hs g0))) = ObsConst QCdf (Some (JNum 3)) /\
+          (* ... and is gone after the second: no override, no constant, never a degenerate cdf *)
+          s_ov (st (fit (fst (run_fits s0 hs g0)) X g)) = no_ov /\
+          s_const (st (fit (fst (run_fits s0 hs g0)) X g)) = None /\
+          (forall k c, sm_cdf (observe_s (st (fit (fst (run_fits s0 hs g0)) X g))) <> ObsConst k c) /\
+          (er (fit (fst (run_fits s0 hs g0)) X g) = None ->
+           observe_s (st (fit (fst (run_fits s0 hs g0)) X g)) = observe_s (st (fit s0 X g))).
   Proof.
-    intro f. exists (fresh f), [Stub.Xc], Stub.X1. split; [apply new_scipy_default|].
-    intros g0 g.
-    assert (L : sm_cdf (observe_s (st (fit (fst (run_fits (fresh f) [Stub.Xc] g0)) Stub.X1 g)))
-                = ObsConst QCdf (Some (JNum 3))).
-    { simpl run_fits_s.
-      destruct (fit (fresh f) Stub.Xc g0) as [[s1 g1] e1] eqn:E1. simpl fst.
-      assert (H1 : s_ov s1 = all_ov /\ s_const s1 = Some (qj 3)).
-      { change s1 with (st (s1, g1, e1)). rewrite <- E1. apply fit_const_sets_ov. reflexivity. }
-      destruct (fit_nonconst_keeps_ov s1 Stub.X1 g eq_refl) as [K1 K2].
-      rewrite sm_cdf_overridden.
-      - rewrite K2. destruct H1 as [_ ->]. reflexivity.
-      - rewrite K1. destruct H1 as [-> _]. reflexivity. }
-    split; [|exact L].
-    intro H. apply (f_equal sm_cdf) in H. rewrite L in H.
-    rewrite sm_cdf_not_overridden in H.
-    - symmetry in H. revert H. apply class_query_not_const.
-    - destruct (fit_nonconst_keeps_ov (fresh f) Stub.X1 g eq_refl) as [K1 _]. rewrite K1. reflexivity.
+    intro f. exists (fresh f), [Stub.Xc], Stub.X1.
+    split; [apply new_scipy_default|]. split; [reflexivity|]. split; [reflexivity|].
+    intros g0 g. simpl run_fits_s.
+    destruct (fit (fresh f) Stub.Xc g0) as [[s1 g1] e1] eqn:E1. simpl fst.
+    assert (H1 : s_ov s1 = all_ov /\ s_const s1 = Some (qj 3)).
+    { change s1 with (st (s1, g1, e1)). rewrite <- E1. apply fit_const_sets_ov. reflexivity. }
+    destruct (fit_nonconst_resets_ov s1 Stub.X1 g eq_refl) as [K1 K2].
+    split.
+    { rewrite sm_cdf_overridden.
+      - destruct H1 as [_ ->]. reflexivity.
+      - destruct H1 as [-> _]. reflexivity. }
+    split; [exact K1|]. split; [exact K2|]. split.
+    - intros k c. rewrite sm_cdf_not_overridden by (rewrite K1; reflexivity).
+      apply class_query_not_const. right. discriminate.
+    - intro He.
+      assert (E : s1 = fst (run_fits (fresh f) [Stub.Xc] g0)) by (simpl; rewrite E1; reflexivity).
+      rewrite E in *.
+      apply fit_pure_scipy_partial_observe; [|exact He].
+      right. constructor; [|constructor]. unfold isconst. discriminate.
   Qed.
 
   (* ----------------------------------------------------------------------- *)
@@ -717,11 +739,11 @@ Section Proofs.
   Proof.
     intros s X g. split; [apply fit_keeps_fam|].
     destruct s as [f fi p c ov rs mn mx ss bw w m sto].
-    unfold st, fit_scipy. cbv beta iota delta [s_fam s_ss s_bw s_w s_min s_max].
+    unfold st, fit_scipy. cbv beta iota delta [s_fam s_ss s_bw s_w s_min s_max set_ov set_const].
     destruct (d_const X).
     - destruct (constant_params o_sfit _ X q); reflexivity.
     - destruct f; try reflexivity.
-      + unfold set_min, set_max; simpl.
+      + simpl.
         destruct (is_none mn); simpl; destruct (is_none mx); simpl;
         repeat match goal with
                | |- context [match jv_q ?x with _ => _ end] => destruct (jv_q x); simpl
@@ -993,14 +1015,13 @@ Section Proofs.
   Proof.
     intros s X g.
     destruct s as [f fi p c ov rs mn mx ss bw w m sto].
-    unfold er, st, fit_scipy. cbv beta iota delta [s_fam s_ss s_bw s_w s_min s_max].
+    unfold er, st, fit_scipy. cbv beta iota delta [s_fam s_ss s_bw s_w s_min s_max set_ov set_const].
     destruct (d_const X) eqn:HX.
     - destruct (constant_params o_sfit _ X q) eqn:E; simpl; [|discriminate].
       intros _. repeat split; auto. eexists; split; [reflexivity|]. intros _ H; discriminate.
     - destruct f; simpl;
         try (intros _; repeat split; auto; eexists; split; [reflexivity|]; intros H; discriminate).
-      + unfold set_min, set_max; simpl.
-        destruct (is_none mn); simpl; destruct (is_none mx); simpl;
+      + destruct (is_none mn); simpl; destruct (is_none mx); simpl;
         repeat match goal with
                | |- context [match jv_q ?x with _ => _ end] => destruct (jv_q x); simpl
                | |- context [o_tg_opt ?a ?b ?c] => destruct (o_tg_opt a b c); simpl
@@ -1039,7 +1060,7 @@ Section Proofs.
     rewrite Hc. destruct (d_const X) as [c|] eqn:HX.
     - destruct (fit_const_sets_ov s0 X g c HX) as [A B]. split; [exact A|].
       exists (qj c). split; auto.
-    - destruct (fit_nonconst_keeps_ov s0 X g HX) as [A B]. split; [congruence|].
+    - destruct (fit_nonconst_resets_ov s0 X g HX) as [A B]. split; [exact A|].
       intro Hf. destruct (Fk Hf eq_refl) as (ds & km & K1 & K2 & K3).
       exists ds, km. rewrite Hb, Hw in K2. auto.
   Qed.
@@ -1252,21 +1273,35 @@ Section Proofs.
       from_dict_biv bworld0 None (biv_dict Independence th ta) = (mkBW true [] false, Err AttributeErr).
   Proof. split; reflexivity. Qed.
 
-  (* from_dict / load called on a SUBCLASS in a fresh interpreter: the subclass caches its own
-     empty `_subclasses`, dispatch finds nothing, the constructor evaluates to None *)
-  Theorem subclass_from_dict_refuted : forall th ta,
-      from_dict_biv bworld0 (Some Frank) (biv_dict Frank th ta)
-      = (mkBW false [Frank] false, Err AttributeErr).
+  (* from_dict / load called on a SUBCLASS.
+     BEFORE THE F24 FIX (`instance = cls(copula_type=...)`): in a fresh interpreter the subclass cached its own
+     empty `_subclasses`, dispatch found nothing, the constructor evaluated to None:
+       subclass_from_dict_refuted :
+         from_dict_biv bworld0 (Some Frank) (biv_dict Frank th ta) = (mkBW false [Frank] false, Err AttributeErr)
+       subclass_from_dict_history_dependent :
+         from_dict_biv (mkBW true [Frank] false) (Some Frank) (biv_dict Frank th ta) = (.., Err AttributeErr) /\
+         from_dict_biv (mkBW true [Frank] false) (Some Clayton) (biv_dict Frank th ta)
+           = (.., Ok (mkB (Some Frank) th ta None false))
+     SINCE THE FIX (`instance = Bivariate(copula_type=...)`) the class from_dict is called on is irrelevant: *)
+  Theorem subclass_from_dict_fixed : forall w c j,
+      from_dict_biv w (Some c) j = from_dict_biv w None j.
   Proof. reflexivity. Qed.
 
-  (* ... and it stays broken for that subclass even after Bivariate's cache is filled,
-     while another subclass now works (and may even return a different class) *)
-  Theorem subclass_from_dict_history_dependent : forall th ta,
+  Theorem subclass_from_dict_roundtrip : forall w c t th ta,
+      t <> Independence ->
+      from_dict_biv w (Some c) (biv_dict t th ta)
+      = (mkBW true (bw_own_empty w) (bw_indep_imported w), Ok (mkB (Some t) th ta None true)).
+  Proof. intros w c t th ta H. rewrite subclass_from_dict_fixed. apply roundtrip_biv. exact H. Qed.
+
+  (* the two states of the class-level caches in which it used to fail *)
+  Theorem subclass_from_dict_history_independent : forall th ta,
+      from_dict_biv bworld0 (Some Frank) (biv_dict Frank th ta)
+      = (mkBW true [] false, Ok (mkB (Some Frank) th ta None true)) /\
       from_dict_biv (mkBW true [Frank] false) (Some Frank) (biv_dict Frank th ta)
-      = (mkBW true [Frank] false, Err AttributeErr) /\
+      = (mkBW true [Frank] false, Ok (mkB (Some Frank) th ta None true)) /\
       from_dict_biv (mkBW true [Frank] false) (Some Clayton) (biv_dict Frank th ta)
-      = (mkBW true [Frank] false, Ok (mkB (Some Frank) th ta None false)).
-  Proof. split; reflexivity. Qed.
+      = (mkBW true [Frank] false, Ok (mkB (Some Frank) th ta None true)).
+  Proof. repeat split; reflexivity. Qed.
 
   (* --- dispatch: Univariate.from_dict / Multivariate.from_dict --- *)
   Theorem dispatch_univariate : forall f p s',
@@ -1590,38 +1625,61 @@ Section Proofs.
   Qed.
 End Proofs.
 
-(* T1 partial, restated per class with explicit side conditions *)
-Corollary fit_pure_tg_partial : forall o1 o2 o3 o4 s0 hs X g0 g,
+(* T1 restated per class.  SINCE THE F5 / F6 FIXES:
+   - TruncatedGaussian: FULL for successful fits (fit_pure_tg); the old statement with its side
+     conditions (both bounds given, no constant dataset earlier) is kept as fit_pure_tg_partial;
+   - GaussianKDE: still needs a user-given sample_size (F7); the condition on constant data is gone. *)
+Theorem fit_pure_tg : forall o1 o2 o3 o4 s0 hs X g0 g,
     s_fam s0 = FTrunc ->
-    is_none (s_min s0) = false -> is_none (s_max s0) = false ->     (* both bounds given by the user *)
-    (d_const X <> None \/ Forall nonconst hs) ->                    (* no constant dataset earlier *)
     er (fit_scipy o1 o2 o3 o4 (fst (run_fits_s o1 o2 o3 o4 s0 hs g0)) X g) = None ->
     observe_s (st (fit_scipy o1 o2 o3 o4 (fst (run_fits_s o1 o2 o3 o4 s0 hs g0)) X g))
     = observe_s (st (fit_scipy o1 o2 o3 o4 s0 X g)).
-Proof.
-  intros. apply fit_pure_scipy_partial_observe; auto.
-  split; auto. left. unfold stable. rewrite H. auto.
-Qed.
+Proof. intros. apply fit_pure_scipy_full; auto. rewrite H. discriminate. Qed.
 
-Corollary fit_pure_kde_partial : forall o1 o2 o3 o4 s0 hs X g0 g,
-    s_fam s0 = FKDE ->
-    truthy (s_ss s0) = true ->                                      (* sample_size given by the user *)
+Corollary fit_pure_tg_partial : forall o1 o2 o3 o4 s0 hs X g0 g,
+    s_fam s0 = FTrunc ->
+    is_none (s_min s0) = false -> is_none (s_max s0) = false ->
     (d_const X <> None \/ Forall nonconst hs) ->
     er (fit_scipy o1 o2 o3 o4 (fst (run_fits_s o1 o2 o3 o4 s0 hs g0)) X g) = None ->
     observe_s (st (fit_scipy o1 o2 o3 o4 (fst (run_fits_s o1 o2 o3 o4 s0 hs g0)) X g))
     = observe_s (st (fit_scipy o1 o2 o3 o4 s0 X g)).
+Proof. intros. apply fit_pure_tg; auto. Qed.
+
+Theorem fit_pure_kde : forall o1 o2 o3 o4 s0 hs X g0 g,
+    s_fam s0 = FKDE ->
+    truthy (s_ss s0) = true ->                                      (* sample_size given by the user *)
+    er (fit_scipy o1 o2 o3 o4 (fst (run_fits_s o1 o2 o3 o4 s0 hs g0)) X g) = None ->
+    observe_s (st (fit_scipy o1 o2 o3 o4 (fst (run_fits_s o1 o2 o3 o4 s0 hs g0)) X g))
+    = observe_s (st (fit_scipy o1 o2 o3 o4 s0 X g)).
 Proof.
   intros. apply fit_pure_scipy_partial_observe; auto.
-  split; auto. left. unfold stable. rewrite H. auto.
+  left. unfold stable. rewrite H. auto.
 Qed.
 
-(* ... and with derived bounds / sample size, as long as only constant data came before *)
+Corollary fit_pure_kde_partial : forall o1 o2 o3 o4 s0 hs X g0 g,
+    s_fam s0 = FKDE ->
+    truthy (s_ss s0) = true ->
+    (d_const X <> None \/ Forall nonconst hs) ->
+    er (fit_scipy o1 o2 o3 o4 (fst (run_fits_s o1 o2 o3 o4 s0 hs g0)) X g) = None ->
+    observe_s (st (fit_scipy o1 o2 o3 o4 (fst (run_fits_s o1 o2 o3 o4 s0 hs g0)) X g))
+    = observe_s (st (fit_scipy o1 o2 o3 o4 s0 X g)).
+Proof. intros. apply fit_pure_kde; auto. Qed.
+
+(* ... and without a user-given sample size, as long as only constant data came before
+   (in particular [fit const; fit X] is now pure for GaussianKDE as well) *)
+Theorem fit_pure_after_constants : forall o1 o2 o3 o4 s0 hs X g0 g,
+    Forall isconst hs ->
+    er (fit_scipy o1 o2 o3 o4 (fst (run_fits_s o1 o2 o3 o4 s0 hs g0)) X g) = None ->
+    observe_s (st (fit_scipy o1 o2 o3 o4 (fst (run_fits_s o1 o2 o3 o4 s0 hs g0)) X g))
+    = observe_s (st (fit_scipy o1 o2 o3 o4 s0 X g)).
+Proof. intros. apply fit_pure_scipy_partial_observe; auto. right. assumption. Qed.
+
 Corollary fit_pure_after_constants_partial : forall o1 o2 o3 o4 s0 hs X g0 g,
     Forall isconst hs -> d_const X <> None ->
     er (fit_scipy o1 o2 o3 o4 (fst (run_fits_s o1 o2 o3 o4 s0 hs g0)) X g) = None ->
     observe_s (st (fit_scipy o1 o2 o3 o4 (fst (run_fits_s o1 o2 o3 o4 s0 hs g0)) X g))
     = observe_s (st (fit_scipy o1 o2 o3 o4 s0 X g)).
-Proof. intros. apply fit_pure_scipy_partial_observe; auto. split; auto. Qed.
+Proof. intros. apply fit_pure_after_constants; auto. Qed.
 
 (* ========================================================================= *)
 (*  Concrete witnesses (stub oracles; each was replayed on the real library)   *)
@@ -1636,16 +1694,21 @@ Definition srun (s : sinst) (hs : list data) : sinst :=
 Ltac differ_on proj :=
   let H := fresh in intro H; apply (f_equal proj) in H; vm_compute in H; discriminate H.
 
-(* --- T1 (b): TruncatedGaussian remembers data-derived bounds:  [fit X; fit 10X] --- *)
-Theorem fit_pure_tg_refuted :
-  exists s0 hs X, new_scipy FTrunc [] [] = Ok s0 /\
-    observe_s (sst (sfit (srun s0 hs) X [])) <> observe_s (sst (sfit s0 X [])) /\
-    (* the bounds used for 10X are still those derived from X *)
-    s_min (sst (sfit (srun s0 hs) X [])) = qj (d_min Stub.X1 - EPS) /\
-    s_max (sst (sfit (srun s0 hs) X [])) = qj (d_max Stub.X1 + EPS) /\
-    s_min (sst (sfit s0 X [])) = qj (d_min Stub.X10 - EPS).
+(* --- T1 (b): TruncatedGaussian, [fit X; fit 10X].
+   BEFORE THE F6 FIX this was the refutation fit_pure_tg_refuted: the second fit still used
+   s_min = qj (d_min X1 - EPS), s_max = qj (d_max X1 + EPS), the bounds derived from X.
+   SINCE THE FIX the instance never stores data-derived bounds: --- *)
+Theorem fit_pure_tg_witness_fixed :
+  exists s0 hs X, new_scipy FTrunc [] [] = Ok s0 /\ hs = [Stub.X1] /\ X = Stub.X10 /\
+    observe_s (sst (sfit (srun s0 hs) X [])) = observe_s (sst (sfit s0 X [])) /\
+    s_min (sst (sfit (srun s0 hs) X [])) = JNone /\
+    s_max (sst (sfit (srun s0 hs) X [])) = JNone /\
+    (* the bounds of the second fit are those of 10X *)
+    to_dict_scipy (sst (sfit (srun s0 hs) X []))
+    = Ok (JDict [("a", JNum (-2)); ("b", JNum 2); ("loc", JNum 40); ("scale", qj ((60 + 2 * EPS) / 4));
+                 ("type", JStr "copulas.univariate.truncated_gaussian.TruncatedGaussian")]).
 Proof.
-  exists (fresh FTrunc), [Stub.X1], Stub.X10. split; [reflexivity|]. split; [differ_on sm_dict|].
+  exists (fresh FTrunc), [Stub.X1], Stub.X10. split; [reflexivity|]. split; [reflexivity|]. split; [reflexivity|].
   repeat split; vm_compute; reflexivity.
 Qed.
 
@@ -1756,15 +1819,19 @@ Qed.
 (* --- C14 refutations --- *)
 Definition rt' := rt.
 
-(* (i) stale overrides: [fit const; fit X] then round trip - the copy behaves differently *)
-Theorem roundtrip_observe_stale_overrides_refuted :
+(* (i) [fit const; fit X] then round trip.
+   BEFORE THE F5 FIX this was roundtrip_observe_stale_overrides_refuted: the original kept the degenerate
+   overrides (sm_cdf = ObsConst QCdf (Some 3)) while the copy rebuilt from the same dict did not:
+   observe_s s' <> observe_s s although to_dict_scipy s' = to_dict_scipy s.
+   SINCE THE FIX the re-fitted original has no overrides and the copy behaves like it: *)
+Theorem roundtrip_observe_after_refit_fixed :
   exists s s', s = sst (sfit (srun (fresh FGaussian) [Stub.Xc]) Stub.X1 []) /\
-    rt s = Ok s' /\ to_dict_scipy s' = to_dict_scipy s /\ observe_s s' <> observe_s s /\
-    sm_cdf (observe_s s) = ObsConst QCdf (Some (JNum 3)) /\
+    rt s = Ok s' /\ to_dict_scipy s' = to_dict_scipy s /\ observe_s s' = observe_s s /\
+    sm_cdf (observe_s s) = ObsScipy QCdf FGaussian [("loc", JNum 4); ("scale", JNum (3 # 2))] /\
     sm_cdf (observe_s s') = ObsScipy QCdf FGaussian [("loc", JNum 4); ("scale", JNum (3 # 2))].
 Proof.
   eexists; eexists. split; [reflexivity|]. split; [vm_compute; reflexivity|].
-  split; [vm_compute; reflexivity|]. split; [differ_on sm_cdf|]. split; vm_compute; reflexivity.
+  repeat split; vm_compute; reflexivity.
 Qed.
 
 (* (ii) StudentTUnivariate on constant data: `loc` is whatever t.fit returns on constant
@@ -1847,12 +1914,13 @@ Theorem get_instance_drops_seed :
     get_instance_u (PInstS s) [] = Ok (OS s') /\ s_rs s = Some (42%Z, []) /\ s_rs s' = None.
 Proof. eexists; eexists. repeat split; reflexivity. Qed.
 
-(* ... whereas TruncatedGaussian (with @store_args) is rebuilt with its bounds and seed,
-   and NOT with the data-derived bounds it acquired while fitting *)
+(* ... whereas TruncatedGaussian (with @store_args) is rebuilt with its bounds and seed
+   (since the F6 fix fitting no longer stores a data-derived upper bound on the prototype: s_max s1 = JNone;
+   before the fix s_max s1 = qj (7 + EPS) and the clone still had JNone) *)
 Theorem get_instance_tg_example :
   exists s s1 s2,
     new_scipy FTrunc [JNum 0] [("random_state", natj 7)] = Ok s /\
-    sst (sfit s Stub.X1 []) = s1 /\ s_max s1 = qj (7 + EPS) /\
+    sst (sfit s Stub.X1 []) = s1 /\ s_max s1 = JNone /\
     get_instance_u (PInstS s1) [] = Ok (OS s2) /\ s2 = s /\ s_max s2 = JNone /\
     (* with kwargs, even the stored bounds are dropped *)
     (exists s3, get_instance_u (PInstS s1) [("random_state", UJ JNone)] = Ok (OS s3) /\ s_min s3 = JNone).
@@ -1884,8 +1952,7 @@ Example benign_nonvacuous_plain :
   benign (fresh FGaussian) [Stub.X1; Stub.Xc] Stub.Xc /\
   er (sfit (srun (fresh FGaussian) [Stub.X1; Stub.X10]) Stub.X50 []) = None.
 Proof.
-  repeat split; try (right; repeat constructor; fail); try (left; exact I).
-  left; discriminate.
+  split; [left; exact I|]. split; [left; exact I|]. reflexivity.
 Qed.
 
 Example benign_nonvacuous_tg :
@@ -1894,7 +1961,7 @@ Example benign_nonvacuous_tg :
     er (sfit (srun s0 [Stub.X1; Stub.X10]) Stub.X50 []) = None.
 Proof.
   eexists. split; [reflexivity|]. split; [|reflexivity].
-  split; [right; repeat constructor|left; split; reflexivity].
+  left; exact I.
 Qed.
 
 Example benign_nonvacuous_kde :
@@ -1903,7 +1970,7 @@ Example benign_nonvacuous_kde :
     er (sfit (srun s0 [Stub.X1; Stub.X10]) Stub.X50 []) = None.
 Proof.
   eexists. split; [reflexivity|]. split; [|reflexivity].
-  split; [right; repeat constructor|left; reflexivity].
+  left; reflexivity.
 Qed.
 
 Example consistent_nonvacuous :
@@ -1976,8 +2043,11 @@ Print Assumptions fit_pure_scipy_partial.
 Print Assumptions fit_pure_plain_partial.
 Print Assumptions fit_pure_tg_partial.
 Print Assumptions fit_pure_kde_partial.
-Print Assumptions fit_pure_scipy_refuted.
-Print Assumptions fit_pure_tg_refuted.
+Print Assumptions fit_pure_scipy_full.
+Print Assumptions fit_pure_plain.
+Print Assumptions fit_pure_tg.
+Print Assumptions refit_after_constant_fixed.
+Print Assumptions fit_pure_tg_witness_fixed.
 Print Assumptions fit_pure_kde_refuted.
 Print Assumptions fit_pure_wrapper.
 Print Assumptions fit_pure_biv.
@@ -2004,7 +2074,7 @@ Print Assumptions roundtrip_n_biv.
 Print Assumptions roundtrip_params_gm.
 Print Assumptions roundtrip_observe_gm.
 Print Assumptions wrapper_roundtrip.
-Print Assumptions subclass_from_dict_refuted.
+Print Assumptions subclass_from_dict_fixed.
 Print Assumptions dispatch_independence_refuted.
 Print Assumptions json_safe_scipy_after_fit.
 Print Assumptions json_safe_gm.
